@@ -506,3 +506,51 @@ def lifecycle_scenario(g, sid, ty, life):
             lines += ["destroy LUuser", "nowork"]
     lines += ["destroy LUauto", "use 1", "destroy all", "use 0", "destroy all", "ledger"]
     return {"id": sid, "lines": lines, "n": n}
+
+
+# ----------------------------------------------------------------------------- C11
+FMT = {"d": (-1022, -1074, 1023), "z": (-1022, -1074, 1023), "s": (-126, -149, 127), "c": (-126, -149, 127)}
+
+
+def fam_equ(g, prop, count, types, float_slice=False):
+    """?gsequ + ?laqgs on matrices whose entries are +-2^e over the whole exponent range of the type (domain DL)"""
+    out = {}
+    for ty, k in split_types(count, types).items():
+        cplx = is_cplx(ty)
+        emin, dmin, emax = FMT[ty]
+        lst = []
+        for i in range(k):
+            r = g.r
+            m, n = r.randint(1, 4), r.randint(1, 4)
+            style = r.choice(["mid", "mid", "wide", "extreme", "rows", "cols"])
+            rowsh = [r.randint(-40, 40) if style in ("rows", "wide") else 0 for _ in range(m)]
+            colsh = [r.randint(-40, 40) if style in ("cols", "wide") else 0 for _ in range(n)]
+            A = {}
+            for ii in range(m):
+                for jj in range(n):
+                    if r.random() < 0.25:
+                        continue
+                    if style == "extreme":
+                        e = r.choice([dmin, dmin + 1, emin - 1, emin, emin + 1, -1, 0, 1, emax - 1, emax, r.randint(emin, emax)])
+                    else:
+                        e = r.randint(-6, 6) + rowsh[ii] + colsh[jj]
+                    if cplx and e >= emax:
+                        e = emax - 1
+                    v = (-1.0 if r.random() < 0.5 else 1.0) * 2.0 ** e
+                    if float_slice:
+                        v *= r.uniform(1.0, 1.99)
+                    if not cplx:
+                        A[(ii, jj)] = (v, 0.0)
+                    else:
+                        kind = r.choice(["re", "im", "both"])
+                        A[(ii, jj)] = (v, 0.0) if kind == "re" else ((0.0, v) if kind == "im" else (v, -v if r.random() < 0.5 else v))
+            if r.random() < 0.15 and m > 1:      # an empty row
+                z = r.randrange(m); A = {kk: vv for kk, vv in A.items() if kk[0] != z}
+            if r.random() < 0.15 and n > 1:      # an empty column
+                z = r.randrange(n); A = {kk: vv for kk, vv in A.items() if kk[1] != z}
+            if r.random() < 0.1:                 # explicit zeros are stored entries too
+                A[(r.randrange(m), r.randrange(n))] = (0.0, 0.0)
+            lines = g.mat_lines(A, m, n, "NC", cplx) + ["call equ", "destroy all", "ledger"]
+            lst.append({"id": "%s-equ%s-%05d-%s" % (prop, "f" if float_slice else style, i, ty), "lines": lines, "n": n})
+        out[ty] = lst
+    return out
